@@ -479,6 +479,9 @@ class FakePopen:
 
     def kill(self):
         # SIGKILL of the server process; its (daemon) worker processes lose their connection and exit
+        if self.node not in self.net.dead:
+            for h in self.net.exit_hooks:
+                h(self.node, 'kill')
         self.net.crash(self.node)
 
 
@@ -512,6 +515,7 @@ class Net:
         self.force_select = None
         self.dead = set()
         self.sig_handlers = {}
+        self.exit_hooks = []
         install()
         CUR = self
         _reset_process_state()
@@ -557,6 +561,8 @@ class Net:
                 target(*args, **(kwargs or {}))
             finally:
                 if node not in self.dead:
+                    for h in self.exit_hooks:
+                        h(node, 'exit')
                     self.crash(node)
         return self.k.spawn(node + '.main', main, node=node)
 
@@ -733,6 +739,9 @@ def install():
         def kill(self, pid, sig):
             net = CUR
             node = net.node()
+            if node not in net.dead:
+                for h in net.exit_hooks:
+                    h(node, 'exit')
             net.crash(node)
             raise SimKilled()
 
